@@ -41,6 +41,16 @@ Proof. vm_compute. reflexivity. Qed.
 Example O10_filedisk_stateless :
   all_methods "disk.FileDisk." (fun ss => negb (existsb (writes_to "d.") ss)) skeletons = true.
 Proof. vm_compute. reflexivity. Qed.
+(* ... and has nothing to keep it in: two scalar fields copied into every (value) receiver, no
+   pointer, map, slice or lock through which one call could leave something for another; its
+   method set is the modelled one and ReadTo/Write mention the receiver only as d.fd / d.numBlocks *)
+Example O10_filedisk_struct :
+  has_body type_decls "disk.FileDisk" "def" "struct { fd int numBlocks uint64 }" = true.
+Proof. vm_compute. reflexivity. Qed.
+Example O10_filedisk_method_set :
+  map fst (filter (fun kv => prefix "disk.FileDisk." (fst kv)) skeletons) =
+  ["disk.FileDisk.ReadTo"; "disk.FileDisk.Read"; "disk.FileDisk.Write"; "disk.FileDisk.Size"; "disk.FileDisk.Barrier"; "disk.FileDisk.Close"].
+Proof. vm_compute. reflexivity. Qed.
 (* FileDisk transfers are positional (pread/pwrite), never through the shared file offset *)
 Example O10_filedisk_positional :
   all_methods "disk.FileDisk." (fun ss => never_mentions "unix.Seek" ss && never_mentions "unix.Read(" ss && never_mentions "unix.Write(" ss) skeletons = true
